@@ -118,6 +118,8 @@ def ds_op(ctx, struct, op, dim, args=None, attrs_kept=True, under=None):
             return ds.isel(**{dim: idx})
         if op in ('mean', 'std', 'var', 'median', 'sum'):
             return getattr(ds, op)(axis=dim)
+        if op.endswith('-skipna'):
+            return getattr(ds, op[:-7])(axis=dim, skipna=True)
         if op in ('mean-pos', 'sum-pos', 'median-pos'):
             return getattr(ds, op[:-4])(axis=pos)
         if op in ('mean-default', 'sum-default'):
@@ -162,6 +164,8 @@ def ds_op(ctx, struct, op, dim, args=None, attrs_kept=True, under=None):
             return v.take(idx, axis=dim, indexing='position')
         if op in ('mean', 'std', 'var', 'median', 'sum'):
             return getattr(v, op)(axis=dim)
+        if op.endswith('-skipna'):
+            return getattr(v, op[:-7])(axis=dim, skipna=True)
         if op in ('mean-pos', 'sum-pos', 'median-pos'):
             return getattr(v, op[:-4])(axis=dim)
         if op in ('mean-default', 'sum-default'):
@@ -362,6 +366,9 @@ def templates():
                 quick = sname in ('a_x-b_yx', 'a_xy-b_y-c_0', 'a_y-b_xz') or op in ('take-scalar', 'mean', 'reindex_axis')
                 add('%s-%s-%s' % (op, sname, dim), 'ds_op', 'quick' if quick else 'thorough', cost=1.5, struct=sname, op=op, dim=dim)
     # data with NaN (a node next to a NaN sample, NaN rows through reindexing)
+    for sname, dim in (('a_x-b_yx', 'x'), ('a_xy-b_y-c_0', 'y')):
+        for op in ('mean-skipna', 'median-skipna', 'sum-skipna', 'std-skipna', 'var-skipna'):
+            add('%s-nan-%s-%s' % (op, sname, dim), 'ds_op', cost=4, struct=sname, op=op, dim=dim, args={'nan': True})
     for sname, dim in (('a_x-b_yx', 'x'), ('a_x', 'x')):
         for op in ('interp_axis', 'reindex_axis'):
             add('%s-nan-%s-%s' % (op, sname, dim), 'ds_op', cost=6, struct=sname, op=op, dim=dim, args={'nan': True})
